@@ -276,6 +276,10 @@ func (r *rewriter) replace(c ast.Node, isRoot bool) (string, bool) {
 				switch x.Sel.Name {
 				case "Sleep":
 					return "vsched.Sleep", true
+				case "Now", "Since", "Until":
+					// the execution's own clock: stands still unless the history says otherwise
+					r.stats["time."+x.Sel.Name]++
+					return "vsched." + x.Sel.Name, true
 				case "After", "NewTimer", "AfterFunc", "Timer":
 					// no clock: a timer may fire at any point after it was armed (vsched/timer.go)
 					r.stats["time."+x.Sel.Name]++
